@@ -521,6 +521,9 @@ def replay(data):
         return st == 'SUCCESSFUL' and not agg_expected_possible(data['n'], data['vals'])
     if data['part'] == 'cache':
         return data['label'] in cache_concrete(data['kind'], data['vals'])
+    if data['part'] == 'wire':
+        from . import c17wire
+        return c17wire.replay(data)
     if data['part'] == 'lru':
         ops = [tuple(o) for o in data['ops']]
         return lru_concrete(ops) or any(lru_concrete(ops + [('set', 9), ('get', k)]) for k in (0, 1, 2))
@@ -563,7 +566,7 @@ def check(rep):
         'bitbucket.Repository.get_build_status', 'webhook.handle_github_status_event',
         'webhook.handle_github_check_suite_event', 'webhook.handle_bitbucket_repo_event',
         'lib.lru_cache.LRUCache.get/set', 'git_host.cache.BUILD_STATUS_CACHE']
-    nmax = 3 if rep.tier == 'quick' else 4
+    nmax = 3          # (4 runs x 3 workflow ids did not finish in an hour: ~40x the 9 364 paths of 3 runs)
     nops = 4 if rep.tier == 'quick' else 5
     rep.bounds = dict(workflow_runs='0..%d' % nmax, workflow_ids=NWF, head_branches=2,
                       cache='2 commits x 2 keys, one step from an arbitrary content',
@@ -628,6 +631,9 @@ def check(rep):
             rep.validated += 1
         if wits and kind == 'github_poll':
             rep.sample(dict(part='cache step', kind=kind, inputs=wits[0]))
+    # (b') sequences of polls and events through the real HTTP stack
+    from . import c17wire
+    c17wire.part(rep)
     # (c)
     results, st = common.explore_parallel(lru_harness(nops), split_depth=6)
     rep.add_stats(st, 'LRU size 2, %d ops' % nops)
